@@ -33,6 +33,12 @@ func c08(p *core.Prog, r *core.Report) {
 	c08IDs(p, r)
 	c08Lazy(p, r)
 	c08Append(p, r)
+	// the caller receives exactly what the destination produced: nothing of a
+	// call the relay has already ended (error frame sent) is forwarded.
+	r.Rule("C08-R6", "E6 paths/guards", 4, "no frame of an ended call is forwarded (shared with C10)")
+	r.Alias("C10-R3", "C08-R6")
+	c10Relay(p, r)
+	r.Alias("C10-R3", "")
 }
 
 // frameOrigin: "fresh" when the frame value comes from a pool Get / NewFrame in this function, else "received".
@@ -325,6 +331,35 @@ func c08IDs(p *core.Prog, r *core.Report) {
 			}
 		}
 		r.Check(ok2, "C08-R2", fname(g), "later frames stamped with item.remapID before forwarding", p.Pos(g.Pos()), "Header.ID = item.remapID precedes Receive", "continuation / response frames are forwarded under the wrong id")
+		// the item is failed / finished in the table it was looked up in,
+		// under the id it was looked up with: the header id read after the
+		// re-stamp belongs to the other connection's id space and names
+		// another call of this table.
+		if s2 != nil {
+			gets := core.CallsIn(g, "relayItems.Get")
+			n := 0
+			for _, c := range append(core.CallsIn(g, "Relayer.failRelayItem"), core.CallsIn(g, "Relayer.finishRelayItem")...) {
+				n++
+				a := core.CallArgs(c)
+				okT := len(gets) == 1 && a[1] == core.CallArgs(gets[0])[0]
+				okID := false
+				how := "the id is not a read of the frame's header id"
+				if core.LoadedField(a[2]) == idF {
+					ld := a[2].(ssa.Instruction)
+					res := core.ReachAvoiding(g, s2, func(i ssa.Instruction) bool { return i == ld }, nil, nil)
+					okID = !res.Found
+					how = "the id is read from the header after it was re-stamped with the remapped id (it names a different call in this table)"
+				}
+				if !okT {
+					how = "the table is not the one the item was looked up in"
+				}
+				r.Check(okT && okID, "C08-R2", fname(g), calleeShort(c)+" uses the lookup table and the pre-remap id", p.Pos(c.Pos()),
+					"same table value as items.Get; id loaded before Header.ID = item.remapID", how)
+			}
+			if n < 2 {
+				r.Errorf("handleNonCallReq: expected a fail and a finish of the relay item, found %d", n)
+			}
+		}
 	}
 	// addRelayItem stores remapID and destination as given
 	if g := mustFunc(p, r, "", "Relayer", "addRelayItem"); g != nil {
